@@ -277,7 +277,7 @@ func (t *BaseTestLocalBlockFS) PrepareFS(point base.Point, prev, prevSuffrage ut
 			valuehash.RandomSHA256(),
 			nil,
 		)
-		node := fixedtree.NewBaseNode(key)
+		node := fixedtree.NewBaseNode(stts[i].Hash().String())
 		t.NoError(sttstreeg.Add(uint64(i), node))
 
 		t.NoError(fs.SetState(context.Background(), uint64(len(stts)), uint64(i), stts[i]))
